@@ -10,6 +10,7 @@ SrcTab == << "a", "a", "a", "b" >>
 DstTab == << "P1", "P2", "D", "P1" >>
 DnsSet == {3}
 
+SParked == {k \in AllKeys : k.s \in DOMAIN assoc /\ k.s \notin assocErr /\ rxq[k] # << >>}
 Sib(src) == IF src \in DOMAIN assoc THEN Cardinality(assoc[src]) ELSE 0
 
 (* witnesses against vacuity: sub-cases of Next, named so that TLC's coverage shows them *)
@@ -21,16 +22,19 @@ WDnsLeavesSiblings == rpc = "dns2" /\ Sib(rcur.lab.d) > 1 /\ DnsPeerClosed(rcur.
 WDnsLeavesOneSibling == rpc = "dns2" /\ Sib(rcur.lab.d) = 2 /\ DnsPeerClosed(rcur.lab)
 WDnsLastReleases == rpc = "dnsrel" /\ DnsAssocRelease(rcur.lab.d)
 WSiblingUsedAfterClose == SendOk /\ expiredOnce # {} /\ Sib(Src[lcur.f]) > 0 /\ \E k \in expiredOnce : k.s = Src[lcur.f] /\ k # K(lcur.f)
-WTwoAssociations == AssocOpen /\ DOMAIN assoc # {}
+WTwoAssociations == AssocOpenDone /\ DOMAIN assoc # {}
 WErrorClosesSeveral == rpc = "close" /\ Cardinality(rclose) > 1 /\ ReadClose(CHOOSE k \in rclose : TRUE)
 WErrorOtherSourceLives == rpc = "close" /\ DOMAIN assoc # {} /\ ReadClose(CHOOSE k \in rclose : TRUE)
-WRefusedThenOk == AssocOpen /\ everRefused
+WRefusedThenOk == AssocOpenDone /\ everRefused
 WSendErr == SendErr
+WCancelledThenFresh == AssocOpenStart /\ Len(done) > 0 /\ done[Len(done)].out = "cancelled"
+WReplyWhileParked == Parked /\ SParked # {} /\ ReadReply(CHOOSE k \in SParked : TRUE)
 WReplyAfterFlowEnded == rpc = "regin" /\ Rev(rcur.lab) \notin DOMAIN pipeTab /\ RegisterIncoming
 
 Witnesses == WAddPeer \/ WExpireLeavesSiblings \/ WExpireLeavesOneSibling \/ WExpireLastReleases \/ WDnsLeavesSiblings
              \/ WDnsLeavesOneSibling \/ WDnsLastReleases \/ WSiblingUsedAfterClose \/ WTwoAssociations
              \/ WErrorClosesSeveral \/ WErrorOtherSourceLives \/ WRefusedThenOk \/ WSendErr \/ WReplyAfterFlowEnded
+             \/ WCancelledThenFresh \/ WReplyWhileParked
 
 MCNext == Next \/ Witnesses
 MCSpec == Init /\ [][MCNext]_vars
